@@ -8,6 +8,8 @@ too.
 """
 from fractions import Fraction
 
+import math
+
 import numpy as np
 
 from ..core import util
@@ -28,9 +30,9 @@ EXHAUSTIVE = {"quick": True, "thorough": True}
 SOFT_LIMIT = {"quick": 240, "thorough": 1500}
 REQUIRED_FUNCS = ["sempler/utils.py:split_data"]
 REQUIRED_COUNTERS = {"quick": {"accepted": 20000, "float-sum-not-1": 300, "rejected-as-expected": 200, "tie-sizes": 300, "determinism-checked": 5000,
-                               "shuffle-checked": 1000, "rows-tracked": 500000, "uniformity:calls": 20000, "uniformity:cells-judged": 500},
+                               "shuffle-checked": 1000, "rows-tracked": 500000, "uniformity:calls": 20000, "uniformity:cells-judged": 150},
                      "thorough": {"accepted": 100000, "float-sum-not-1": 500, "rejected-as-expected": 200, "tie-sizes": 3000, "determinism-checked": 50000,
-                                  "shuffle-checked": 5000, "rows-tracked": 2000000, "uniformity:calls": 200000, "uniformity:cells-judged": 500}}
+                                  "shuffle-checked": 5000, "rows-tracked": 2000000, "uniformity:calls": 200000, "uniformity:cells-judged": 150}}
 SEEDS = {"quick": 3, "thorough": 24}
 
 
@@ -115,7 +117,7 @@ def _judge_uniformity(U, family, case, rec):
     from ..oracles import stats as S
     n, ratios, ns = case["n"], case["ratios"], case["n_seeds"]
     rec.case(family, case, True, key=("uniformity", n, tuple(ratios), case["base"]))
-    first = np.zeros((n, n), dtype=int)        # first[i, q]: observation i at place q of the concatenated folds
+    member = None                               # member[i, f]: observation i in fold f (the order of the rows inside a fold is not part of the property)
     together = 0
     sizes = None
     data0 = np.arange(n, dtype=float).reshape(n, 1)
@@ -131,23 +133,27 @@ def _judge_uniformity(U, family, case, rec):
         if len(seq) != n or sorted(seq.tolist()) != list(range(n)):
             return          # conservation is judged by the 'split' family
         sizes = [len(q) for q in parts]
-        first[seq, np.arange(n)] += 1
         fold_of = np.repeat(np.arange(len(parts)), sizes)[np.argsort(seq)]
+        if member is None:
+            member = np.zeros((n, len(parts)), dtype=int)
+        member[np.arange(n), fold_of] += 1
         together += int(fold_of[0] == fold_of[1])
     rec.count("uniformity:calls", ns)
     worst = 1.0
     for i in range(n):
-        for q in range(n):
-            b = S.binom_tail_bound(int(first[i, q]), ns, 1.0 / n)
+        for q in range(len(sizes)):
+            if sizes[q] in (0, n):
+                continue
+            b = S.binom_tail_bound(int(member[i, q]), ns, sizes[q] / float(n))
             worst = min(worst, b)
-            if b < S.DELTA / (n * n):
+            if b < S.DELTA / (n * len(sizes)):
                 rec.violation("C17:shuffle-not-uniform", family, case,
-                              "over %d seeds observation %d of %d lands on place %d of the concatenated folds %d times (expected about %d; bound %.3g)"
-                              % (ns, i, n, q, int(first[i, q]), ns // n, b), fold_sizes=sizes)
+                              "over %d seeds observation %d of %d lands in fold %d (%d of %d rows) %d times (expected about %d; bound %.3g)"
+                              % (ns, i, n, q, sizes[q], n, int(member[i, q]), int(ns * sizes[q] / float(n)), b), fold_sizes=sizes)
                 return
     p_same = sum(sz * (sz - 1) for sz in sizes) / float(n * (n - 1))
     b = S.binom_tail_bound(together, ns, p_same) if 0 < p_same < 1 else 1.0
-    rec.count("uniformity:cells-judged", n * n + 1)
+    rec.count("uniformity:cells-judged", n * len(sizes) + 1)
     if b < S.DELTA:
         rec.violation("C17:shuffle-not-uniform", family, case,
                       "over %d seeds observations 0 and 1 land in the same fold %d times (expected about %d for a uniform shuffle; bound %.3g)"
@@ -295,11 +301,27 @@ def judge(family, case, rec):
         for rs, folds in outs.items():
             if rs is None:
                 continue        # the default seed is documented (42): it may coincide with an explicit 42
-            seqs.append(np.concatenate([np.asarray(folds[i][e])[:, 0] for i in range(nf)]))
+            # the *assignment* of observations to folds (the order of the rows inside a fold is not part of the property)
+            assign = np.full(sizes[e], -1)
+            for i in range(nf):
+                ids = (np.asarray(folds[i][e])[:, 0] - e * 10**6).astype(int)
+                assign[ids] = i
+            seqs.append(assign)
             labels.append(rs)
-        same = [(labels[a], labels[b]) for a in range(len(seqs)) for b in range(a + 1, len(seqs)) if np.array_equal(seqs[a], seqs[b])]
-        if same:
-            rec.violation("C17:seed-ignored", family, case,
-                          "environment %d (n=%d): different seeds give the very same assignment of observations to folds: %s" % (e, sizes[e], same[:3]))
-        if any(np.array_equal(s, np.sort(s)) for s in seqs):
-            rec.violation("C17:not-shuffled", family, case, "environment %d (n=%d): folds are consecutive slices of the input order" % (e, sizes[e]))
+        fsz = sorted(int((seqs[0] == i).sum()) for i in range(nf)) if seqs else []
+        # number of distinct assignments with these fold sizes is at least C(n, second largest fold): judged only where two seeds
+        # coincide (or hit the identity) with probability below 1e-12
+        log10_ways = 0.0
+        if len(fsz) >= 2 and fsz[-2] >= 1:
+            k_ = fsz[-2]
+            log10_ways = sum(math.log10((sizes[e] - t) / (t + 1.0)) for t in range(k_))
+        if log10_ways >= 12:
+            same = [(labels[a], labels[b]) for a in range(len(seqs)) for b in range(a + 1, len(seqs)) if np.array_equal(seqs[a], seqs[b])]
+            if same:
+                rec.violation("C17:seed-ignored", family, case,
+                              "environment %d (n=%d): different seeds give the very same assignment of observations to folds: %s" % (e, sizes[e], same[:3]))
+            if any((np.diff(a_) >= 0).all() for a_ in seqs):
+                rec.violation("C17:not-shuffled", family, case, "environment %d (n=%d): folds are consecutive slices of the input order" % (e, sizes[e]))
+            rec.count("shuffle-judged")
+        else:
+            rec.count("shuffle:too-few-possible-assignments(not judged)")
